@@ -1,6 +1,6 @@
 #!/venv/bin/python
 """Write harness/floors.json and harness/corpus_expected.txt from the evidence of the UNCHANGED tree (quick tier):
-half of every count.  Run by hand after generators change; never at check time."""
+half of the case counts, 30 % of every input class that had at least 20 cases.  Run by hand after generators change; never at check time."""
 import json, os, sys
 HERE = os.path.dirname(os.path.abspath(__file__))
 sys.path.insert(0, HERE)
